@@ -29,7 +29,7 @@ def valJson : Val → Json
   | .cv ns vs =>
     let rec go : List String → List String → List (String × Json)
       | [], _ => []
-      | n :: ns, [] => (n, Json.str "") :: go ns []     -- a backend may send fewer values than names
+      | n :: ns, [] => (n, Json.null) :: go ns []       -- the livestatus writer prints null for a name without a value
       | n :: ns, v :: vs => (n, Json.str v) :: go ns vs
     .mkObj (go ns vs)
   | .crash w => .str ("<crash:" ++ w ++ ">")
